@@ -87,6 +87,11 @@ Definition small_mul (v : vec) (y : Z) : option vec :=
   let v' := vset_list v l in
   if negb (carry =? 0) then push v' carry else Some v'.
 
+(** what the vector holds after a *failed* `small_add` / `small_mul` (the limbs are updated in
+    place before the final carry is pushed; only the carry is lost) *)
+Definition small_add_failed (v : vec) (y : Z) : vec := vset_list v (fst (add_carry (vl v) y)).
+Definition small_mul_failed (v : vec) (y : Z) : vec := vset_list v (fst (mul_carry (vl v) y 0)).
+
 (** ** large *)
 (** the `for (index, &yi) in y.iter().enumerate()` loop of `large_add_from` on the part of x
     starting at `start` (which is at least as long as y after the resize) *)
